@@ -103,95 +103,89 @@ def _apply_op(zs, op):
 
 
 # ---------------------------------------------------------------------------------------------------------------
-# Pristine reference process. A "fresh" instance built in a process that has already executed thousands of histories
-# is only as fresh as the module- and class-level state allows: a cache that lives on the class and that the first
-# writer wins would poison the long-lived and the fresh instance alike, for the rest of the process. So every run
-# also obtains the fresh answers from a process in which NOTHING has run before: a zygote (a separate interpreter that
-# has only imported the modules) forks one short-lived child per request; the child answers each op on a newly
-# built instance and exits.
+# Pristine reference process. A "fresh" instance built in a process that has already executed other histories is only
+# as fresh as the module- and class-level state allows: a cache that lives on the class would poison the long-lived
+# and the fresh instance alike. So execute() - which is only ever entered by a process that has run nothing yet (a fresh
+# interpreter for a replay, a child forked from a worker that never executes a run itself) - FIRST forks a child that
+# answers every question of the run on a newly built instance, optionally each question in a process of its own, and
+# only then runs the history. The child's answers are what "a process where nothing has run before" says.
 
-_zygote = None
-
-
-def _zygote_main():
+def _in_child(fn):
     import pickle
-    import struct
-    _load()
-    inp, out = sys.stdin.buffer, sys.stdout.buffer
-    while True:
-        hdr = inp.read(4)
-        if len(hdr) < 4:
-            return
-        (n,) = struct.unpack('<I', hdr)
-        zone, opts, ops = pickle.loads(inp.read(n))
-        r, w = os.pipe()
-        pid = os.fork()
-        if pid == 0:
-            os.close(r)
-            try:
-                res = [apply_op(make(zone, opts), op) for op in ops]
-            except BaseException:
-                res = None
+    r, w = os.pipe()
+    pid = os.fork()
+    if pid == 0:
+        os.close(r)
+        try:
+            res = fn()
+        except BaseException:
+            res = None
+        try:
             with os.fdopen(w, 'wb') as f:
                 pickle.dump(res, f)
+        finally:
             os._exit(0)
-        os.close(w)
-        with os.fdopen(r, 'rb') as f:
-            data = f.read()
-        os.waitpid(pid, 0)
-        out.write(struct.pack('<I', len(data)) + data)
-        out.flush()
+    os.close(w)
+    return pid, r
 
 
-def pristine_request(zone, opts, ops):
-    """Sends the request; the answer is collected later with pristine_response() so that both sides work in parallel."""
-    global _zygote
+def _collect(pid_fd):
     import pickle
-    import struct
-    import subprocess
-    if os.environ.get('PYSIM_NO_ZYGOTE'):
-        return False
+    pid, r = pid_fd
+    with os.fdopen(r, 'rb') as f:
+        raw = f.read()
+    os.waitpid(pid, 0)
     try:
-        if _zygote is None or _zygote.poll() is not None:
-            env = dict(os.environ)
-            env['PYTHONHASHSEED'] = env.get('PYTHONHASHSEED', '0')
-            _zygote = subprocess.Popen([sys.executable, os.path.abspath(__file__), 'zygote'], stdin=subprocess.PIPE,
-                                       stdout=subprocess.PIPE, stderr=subprocess.DEVNULL, env=env)
-        req = pickle.dumps((zone, opts, ops))
-        _zygote.stdin.write(struct.pack('<I', len(req)) + req)
-        _zygote.stdin.flush()
-        return True
-    except Exception:
-        return False
-
-
-def pristine_response():
-    """Fresh answers for each op from a process with no history; None if the helper failed."""
-    import pickle
-    import struct
-    try:
-        hdr = _zygote.stdout.read(4)
-        (n,) = struct.unpack('<I', hdr)
-        return pickle.loads(_zygote.stdout.read(n))
+        return pickle.loads(raw)
     except Exception:
         return None
 
 
+def spawn_pristine(questions, isolate):
+    """questions = [(zone, opts, op)]. Returns a handle for collect_pristine(), or None when disabled."""
+    if os.environ.get('PYSIM_NO_PRISTINE'):
+        return None
+
+    def answer_all():
+        if isolate:
+            # every question in a process of its own: not even an earlier question of this run has run before it
+            return [_collect(_in_child(lambda z=z, o=o, op=op: apply_op(make(z, o), op))) for (z, o, op) in questions]
+        return [apply_op(make(z, o), op) for (z, o, op) in questions]
+    try:
+        return _in_child(answer_all)
+    except OSError:
+        return None
+
+
+def collect_pristine(handle):
+    return _collect(handle) if handle is not None else None
+
+
 def parse(text):
+    """Returns (instances, ops): instances = {slot: (zone, opts)}, ops = [(slot, [kind, args...])].
+    Old single-instance traces ("ZONE <name> ..." / "OP <kind> ...") are slot 0."""
     lines = [l.strip() for l in text.split('\n') if l.strip()]
-    zone, opts, ops = None, {'vm': 14, 'inplace': 1, 'opt': 1}, []
+    inst, ops = {}, []
     for l in lines:
         t = l.split('#')[0].split()
         if not t:
             continue
-        if t[0] == 'ZONE':
-            zone = t[1]
-            for kv in t[2:]:
+        if t[0] == 'ZONE' and len(t) >= 2:
+            if t[1].isdigit() and len(t) >= 3:
+                slot, name, rest = int(t[1]), t[2], t[3:]
+            else:
+                slot, name, rest = 0, t[1], t[2:]
+            opts = {'vm': 14, 'inplace': 1, 'opt': 1}
+            for kv in rest:
                 k, v = kv.split('=')
                 opts[k] = int(v)
-        elif t[0] == 'OP':
-            ops.append(t[1:])
-    return zone, opts, ops
+            inst[slot] = (name, opts)
+        elif t[0] == 'OP' and len(t) >= 2:
+            if t[1].isdigit() and len(t) >= 3:
+                ops.append((int(t[1]), t[2:]))
+            else:
+                ops.append((0, t[1:]))
+    return inst, ops
 
 
 def make(zone, opts):
@@ -201,39 +195,46 @@ def make(zone, opts):
                                  optimize_candidates=bool(opts['opt']))
 
 
-def execute(text, cov=None):
+ISOLATE_EVERY = 10   # batch: every n-th run gets one pristine process per question (replays: all)
+
+
+def execute(text, cov=None, isolate=True):
     """Returns (violated, vclass, message, op_index)."""
-    zone, opts, ops = parse(text)
+    inst, ops = parse(text)
     L = _load()
-    if zone is None or zone not in L['infos']:
+    inst = {k: v for k, v in inst.items() if v[0] in L['infos']}
+    ops = [(sl, op) for (sl, op) in ops if sl in inst]
+    if not inst or not ops:
         return (False, '', '', -1)
-    live = make(zone, opts)
-    prev_year, prev_ok = None, None
+    live = {sl: make(z, o) for sl, (z, o) in inst.items()}
+    prev = {sl: (None, None) for sl in inst}
     names = L['names']
-    decoy_zone = names[(names.index(zone) + 97) % len(names)]
     fresh_seen = {}
-    asked = pristine_request(zone, opts, ops)
+    handle = spawn_pristine([(inst[sl][0], inst[sl][1], op) for (sl, op) in ops], isolate)   # before anything else runs
     wants = []
     result = None
-    for i, op in enumerate(ops):
-        got = apply_op(live, op)
+    for i, (sl, op) in enumerate(ops):
+        zone, opts = inst[sl]
+        got = apply_op(live[sl], op)
         # State shared between instances (a class attribute, a module-level memo, mutated shared tables) would be
         # seen alike by the long-lived instance and by a fresh one asked right after it. So an unrelated instance
         # (another zone, another year) is exercised first, and a fresh instance must also agree with what a fresh
         # instance answered to the same op earlier in this run.
+        decoy_zone = names[(names.index(zone) + 97) % len(names)]
         apply_op(make(decoy_zone, opts), ['init', str(2000 + (i * 7 + len(ops)) % 50)])
         want = apply_op(make(zone, opts), op)
-        key = tuple(op)
+        key = (zone, tuple(sorted(opts.items())), tuple(op))
         if key in fresh_seen and fresh_seen[key] != want:
             result = (True, 'c08-py-fresh-drift',
-                    'a fresh ZoneSpecifier(%s) answers %s to %s now but answered %s earlier in this run: state shared '
-                    'between instances' % (zone, _short(want), ' '.join(op), _short(fresh_seen[key])), i)
+                      'a fresh ZoneSpecifier(%s) answers %s to %s now but answered %s earlier in this run: state shared '
+                      'between instances' % (zone, _short(want), ' '.join(op), _short(fresh_seen[key])), i)
             break
         fresh_seen[key] = want
         wants.append(want)
         if cov is not None:
             cov['ops'] = cov.get('ops', 0) + 1
             year = _op_year(op)
+            prev_year, prev_ok = prev[sl]
             state = 'unfilled' if prev_year is None else (
                 ('same-year' if prev_year == year else 'other-year') if prev_ok else
                 ('failed-same-year' if prev_year == year else 'failed-other-year'))
@@ -245,15 +246,17 @@ def execute(text, cov=None):
                 cov['oor_query'] = cov.get('oor_query', 0) + 1
             if want == FAIL:
                 cov['fresh_failures'] = cov.get('fresh_failures', 0) + 1
-            prev_year, prev_ok = (live.year, want != FAIL) if op[0] != 'bufsz' else (live.year, True)
+            prev[sl] = (live[sl].year, want != FAIL) if op[0] != 'bufsz' else (live[sl].year, True)
         if got != want:
             result = (True, 'c08-py-history-%s' % op[0],
                       'long-lived ZoneSpecifier(%s) answered %s to %s; a fresh instance answers %s'
                       % (zone, _short(got), ' '.join(op), _short(want)), i)
             break
-    pristine = pristine_response() if asked else None
+    pristine = collect_pristine(handle)
     if cov is not None:
         cov['pristine_process_runs'] = cov.get('pristine_process_runs', 0) + (1 if pristine is not None else 0)
+        if pristine is not None and isolate:
+            cov['pristine_per_question_runs'] = cov.get('pristine_per_question_runs', 0) + 1
     if pristine is not None:
         for i, want in enumerate(wants):
             if result is not None and i >= result[3]:
@@ -262,7 +265,7 @@ def execute(text, cov=None):
                 return (True, 'c08-py-fresh-drift',
                         'a fresh ZoneSpecifier(%s) in this process answers %s to %s; a fresh one in a process where nothing '
                         'has run before answers %s: state shared between instances'
-                        % (zone, _short(want), ' '.join(ops[i]), _short(pristine[i])), i)
+                        % (inst[ops[i][0]][0], _short(want), ' '.join(ops[i][1]), _short(pristine[i])), i)
     return result if result is not None else (False, '', '', -1)
 
 
@@ -284,17 +287,52 @@ def _epoch_of_year(y):
     return int((datetime(y, 1, 1) - datetime(2000, 1, 1)).total_seconds())
 
 
+def _policy_index():
+    """policy name -> zones whose eras use it (zones that share a policy share its rule tables)."""
+    L = _load()
+    if 'by_policy' in L:
+        return L['by_policy']
+    idx = {}
+    for name in L['names']:
+        for era in L['infos'][name].get('eras', []):
+            pol = era.get('zonePolicy') if isinstance(era, dict) else None
+            pn = pol.get('name') if isinstance(pol, dict) else None
+            if pn:
+                idx.setdefault(pn, [])
+                if name not in idx[pn]:
+                    idx[pn].append(name)
+    L['by_policy'] = idx
+    return idx
+
+
 def generate(seed):
     L = _load()
     rng = random.Random(seed)
-    zone = rng.choice(L['names'])
-    vm = rng.choice([14, 14, 14, 13, 36, 12])
-    lines = ['PROFILE py-history',
-             'ZONE %s vm=%d inplace=%d opt=%d' % (zone, vm, rng.randint(0, 1), rng.randint(0, 1))]
+    # 1-3 long-lived instances per run: other zones (half of the time one that shares a rule policy with the first),
+    # or the same zone under other constructor options
+    zones = [rng.choice(L['names'])]
+    nz = rng.choice([1, 1, 2, 2, 3])
+    sharing = []
+    for pn, zs in sorted(_policy_index().items()):
+        if zones[0] in zs:
+            sharing.extend(z for z in zs if z != zones[0])
+    while len(zones) < nz:
+        r = rng.random()
+        if r < 0.5 and sharing:
+            zones.append(rng.choice(sharing))
+        elif r < 0.65:
+            zones.append(zones[0])
+        else:
+            zones.append(rng.choice(L['names']))
+    lines = ['PROFILE py-history']
+    for sl, z in enumerate(zones):
+        lines.append('ZONE %d %s vm=%d inplace=%d opt=%d' % (sl, z, rng.choice([14, 14, 14, 13, 36, 12]), rng.randint(0, 1),
+                                                            rng.randint(0, 1)))
     n = rng.randint(4, 40)
     last_year = rng.randint(2000, 2049)
     fault_free = rng.random() < 0.3
     for _ in range(n):
+        sl = rng.randrange(len(zones))
         r = rng.random()
         # year choice: in range, near the last one, boundary, far out
         q = rng.random()
@@ -316,19 +354,57 @@ def generate(seed):
             if rng.random() < 0.3:
                 e = _epoch_of_year(y) + rng.choice([0, 1, 86399, 86400, 364 * 86400, 365 * 86400 - 1])
             for _k in range(reps):
-                lines.append('OP %s %d' % (rng.choice(['info_s', 'trans_s']), e))
+                lines.append('OP %d %s %d' % (sl, rng.choice(['info_s', 'trans_s']), e))
         elif r < 0.7:
             dt = (y, rng.randint(1, 12), rng.randint(1, 28), rng.choice([0, 1, 2, 3, rng.randint(0, 23)]),
                   rng.randint(0, 59), rng.randint(0, 59))
             for _k in range(reps):
-                lines.append('OP %s %d %d %d %d %d %d' % ((rng.choice(['info_dt', 'trans_dt']),) + dt))
+                lines.append('OP %d %s %d %d %d %d %d %d' % ((sl, rng.choice(['info_dt', 'trans_dt'])) + dt))
         elif r < 0.93:
             for _k in range(reps):
-                lines.append('OP init %d' % y)
+                lines.append('OP %d init %d' % (sl, y))
         else:
             y0 = min(max(y, 1999), 2048)
-            lines.append('OP bufsz %d %d' % (y0, y0 + rng.randint(1, 3)))
+            lines.append('OP %d bufsz %d %d' % (sl, y0, y0 + rng.randint(1, 3)))
     return '\n'.join(lines) + '\n'
+
+
+def _merge_cov(total, part):
+    for k, v in part.items():
+        if isinstance(v, set):
+            total.setdefault(k, set()).update(v)
+        else:
+            total[k] = total.get(k, 0) + v
+
+
+def run_one_isolated(text, isolate):
+    """Executes one run in a child forked from THIS process, which never executes a run itself: every run starts from
+    a process without history, exactly like a replay in a fresh interpreter, so that whatever is reported reproduces as a
+    single trace. (State that outlives an instance would otherwise leak from run to run inside a worker.)"""
+    import pickle
+    r, w = os.pipe()
+    pid = os.fork()
+    if pid == 0:
+        os.close(r)
+        try:
+            cov = {}
+            v = execute(text, cov, isolate=isolate)
+            payload = (v, cov)
+        except BaseException as e:   # noqa
+            payload = ((False, 'harness', repr(e), -1), {})
+        try:
+            with os.fdopen(w, 'wb') as f:
+                pickle.dump(payload, f)
+        finally:
+            os._exit(0)
+    os.close(w)
+    with os.fdopen(r, 'rb') as f:
+        raw = f.read()
+    os.waitpid(pid, 0)
+    try:
+        return pickle.loads(raw)
+    except Exception:
+        return ((False, 'harness', 'run process died', -1), {})
 
 
 def run_range(args):
@@ -339,15 +415,16 @@ def run_range(args):
     digest = hashlib.sha256()
     samples = []
     nontrivial_runs = 0
+    i = start - 1
     for i in range(start, end):
         seed = int.from_bytes(hashlib.sha256(b'pysim:%d:%d' % (verif_seed, i)).digest()[:8], 'little')
         text = generate(seed)
-        before = cov.get('nontrivial_ops', 0)
-        v = execute(text, cov)
-        if cov.get('nontrivial_ops', 0) > before:
+        v, part = run_one_isolated(text, i % ISOLATE_EVERY == 0)
+        if part.get('nontrivial_ops', 0) > 0:
             nontrivial_runs += 1
             if len(samples) < 1 and len(text) < 1500:
                 samples.append(text)
+        _merge_cov(cov, part)
         digest.update(text.encode())
         digest.update(repr(v).encode())
         if v[0]:
@@ -362,7 +439,5 @@ if __name__ == '__main__':
     if len(sys.argv) >= 4 and sys.argv[1] == 'digest':
         r = run_range((int(sys.argv[2]), 0, int(sys.argv[3])))
         print(r['digest'])
-    elif len(sys.argv) >= 2 and sys.argv[1] == 'zygote':
-        _zygote_main()
     elif len(sys.argv) >= 3 and sys.argv[1] == 'gen':
         sys.stdout.write(generate(int(sys.argv[2])))
